@@ -56,7 +56,10 @@ class CobaRandom:
         Returns:
             The generated random number in [`min`,`max`).
         """
-        return min+(max-min)*next(self._randu)
+        value = min+(max-min)*next(self._randu)
+
+        #the sum is rounded so it can land exactly on max when max-min is tiny next to abs(max)
+        return value if value < max else math.nextafter(max,min)
 
     def randoms(self, n:int, min:float=0, max:float=1) -> Sequence[float]:
         """Generate `n` uniform random numbers in [`min`,`max`).
@@ -81,7 +84,14 @@ class CobaRandom:
         if min != 0:
             out = map(min.__add__,out)
 
-        return list(islice(out,n)) if n is not None else out
+        out = list(islice(out,n)) if n is not None else out
+
+        if min != 0 and n is not None:
+            #the sums are rounded so they can land exactly on max when max-min is tiny next to abs(max)
+            below = math.nextafter(max,min)
+            out = [ v if v < max else below for v in out ]
+
+        return out
 
     def shuffle(self, items: Iterable[Any], inplace: bool = False) -> Sequence[Any]:
         """Shuffle the order of items in a sequence.
